@@ -1,6 +1,6 @@
 // C11, whole-engine clause — BOUNDED stand-in (the write path is locks + file system: outside both verifiers):
-// every CLEAN history (no re-insert of a present tuple, no delete of an absent one) of length <= 5 over 2 tuples,
-// save, restart: the relation served after the restart equals the relation served before it.
+// every CLEAN history (no re-insert of a present tuple, no delete of an absent one) of length <= 3 (thorough: 5) over 2 tuples with
+// save / compact / restart steps inside, ending with and without a final save, plus one bulk history; restart: the relation served after the restart equals the relation served before it.
 use super::*;
 include!("/verif/witness/common.rs");
 include!("/verif/witness/c11_histories_common.rs");
@@ -8,11 +8,35 @@ include!("/verif/witness/c11_histories_common.rs");
 #[test]
 fn verif_witness() {
     let mut cases = 0usize;
-    for h in histories(if vw_thorough() { 7 } else { 5 }) {
+    for h in histories(if vw_thorough() { 5 } else { 3 }) {
         if !is_clean(&h) { continue; }
-        let (before, after) = run_history(&h);
+        // a history consisting only of Save/Compact/Restart is pointless; so is one ending in Restart
+        if !h.iter().any(|o| matches!(o, Op::InsA | Op::InsB)) || h.last() == Some(&Op::Restart) { continue; }
+        for final_save in [true, false] {
+            let (before, after) = run_history_with(&h, final_save);
+            cases += 1;
+            if before != after { vw_found(format!("history {:?}; {}restart: served {:?} before the restart and {:?} after it", h, if final_save { "save; " } else { "" }, before, after)); }
+        }
+    }
+    // bulk: enough updates for several flushes/batch files, interleaved with saves and a compaction
+    {
+        let temp = tempfile::TempDir::new().unwrap();
+        let q = "result(X,Y) <- edge(X,Y)";
+        let before = {
+            let mut s = StorageEngine::new(cfg(temp.path().to_path_buf())).unwrap();
+            s.create_knowledge_graph("kg").unwrap(); s.use_knowledge_graph("kg").unwrap();
+            for round in 0..6i32 {
+                s.insert("edge", (0..700).map(|i| (round * 1000 + i, i)).collect()).unwrap();
+                s.delete("edge", (0..700).step_by(3).map(|i| (round * 1000 + i, i)).collect()).unwrap();
+                if round % 2 == 0 { s.save_knowledge_graph("kg").unwrap(); }
+                if round == 3 { s.compact_all().unwrap(); }
+            }
+            let mut live = s.execute_query(q).unwrap_or_default(); live.sort_unstable(); live
+        };
+        let after = { let mut s = StorageEngine::new(cfg(temp.path().to_path_buf())).unwrap(); s.use_knowledge_graph("kg").unwrap();
+                      let mut r = s.execute_query(q).unwrap_or_default(); r.sort_unstable(); r };
         cases += 1;
-        if before != after { vw_found(format!("history {:?}; save; restart: served {:?} before the restart and {:?} after it", h, before, after)); }
+        if before != after { vw_found(format!("bulk history (6 rounds of 700 inserts + 234 deletes, saves, one compaction); restart: {} tuples served before, {} after", before.len(), after.len())); }
     }
     vw_none(cases);
 }
